@@ -20,3 +20,15 @@ pub assume_specification[ u64::overflowing_add ](a: u64, b: u64) -> (r: (u64, bo
         r.1 == ((a as int) + (b as int) >= 0x1_0000_0000_0000_0000),
         r.0 as int == (if (a as int) + (b as int) >= 0x1_0000_0000_0000_0000 { a as int + b as int - 0x1_0000_0000_0000_0000 } else { a as int + b as int }),
 ;
+
+pub assume_specification[ u128::overflowing_add ](a: u128, b: u128) -> (r: (u128, bool))
+    ensures
+        r.1 == ((a as int) + (b as int) >= 0x1_0000_0000_0000_0000_0000_0000_0000_0000),
+        r.0 as int == (if (a as int) + (b as int) >= 0x1_0000_0000_0000_0000_0000_0000_0000_0000 { a as int + b as int - 0x1_0000_0000_0000_0000_0000_0000_0000_0000 } else { a as int + b as int }),
+;
+
+pub assume_specification[ u128::overflowing_sub ](a: u128, b: u128) -> (r: (u128, bool))
+    ensures
+        r.1 == ((a as int) < (b as int)),
+        r.0 as int == (if (a as int) < (b as int) { a as int - b as int + 0x1_0000_0000_0000_0000_0000_0000_0000_0000 } else { a as int - b as int }),
+;
